@@ -36,6 +36,9 @@ pub fn judge(case: &FaultCase, run: &FaultRun) -> Outcome {
 	if case.retry_after.is_some() {
 		classes.push("retry-after".into());
 	}
+	if case.processing {
+		classes.push("challenge-already-processing".into());
+	}
 	let mut nontrivial = k >= 2;
 	match &f.action {
 		Action::Acme(t) if f.pos.is_post() && RECOVERABLE.contains(&t.as_str()) => {
@@ -69,6 +72,17 @@ pub fn judge(case: &FaultCase, run: &FaultRun) -> Outcome {
 				return Outcome::fail("C08:error-taken-for-success", format!("the request never succeeded, yet the attempt reports success; {d}"));
 			}
 		}
+		Action::AcmeNoNonce(t) if f.pos.is_post() && RECOVERABLE.contains(&t.as_str()) => {
+			// a server that attaches no nonce to its error: there is no newer nonce to use, the bound still holds
+			classes.push("recoverable-without-nonce".into());
+			if txs.len() > MAX_TX {
+				return Outcome::fail("C08:retry-count", format!("{k} consecutive {t} errors without a Replay-Nonce header: the CA saw {} transmissions of the request (limit {MAX_TX}); {d}", txs.len()));
+			}
+			if k >= MAX_TX && success {
+				return Outcome::fail("C08:error-taken-for-success", format!("the request was answered with {k} errors in a row, yet the attempt reports success after {} transmissions; {d}", txs.len()));
+			}
+			nontrivial = true;
+		}
 		Action::Acme(t) if f.pos.is_post() && t == "accountDoesNotExist" && matches!(f.pos, Pos::NewOrder) => {
 			// may legitimately be followed by one newAccount and one re-send (C11)
 			classes.push("accountDoesNotExist".into());
@@ -77,7 +91,7 @@ pub fn judge(case: &FaultCase, run: &FaultRun) -> Outcome {
 			}
 			nontrivial = true;
 		}
-		Action::Acme(_) | Action::AcmeNoType | Action::AcmeUnknownType | Action::NonJson(_) | Action::Empty(_) if f.pos.is_post() => {
+		Action::Acme(_) | Action::AcmeLongDetail(..) | Action::AcmeNoType | Action::AcmeUnknownType | Action::NonJson(_) | Action::Empty(_) if f.pos.is_post() => {
 			classes.push("non-recoverable".into());
 			if txs.len() != 1 {
 				return Outcome::fail("C08:nonrecoverable-resent", format!("error answer {} must not be retried: the CA saw {} transmissions of that request; {d}", f.action.name(), txs.len()));
@@ -137,6 +151,7 @@ pub fn cases(tier: Tier) -> Vec<FaultCase> {
 		hook_faults: vec![],
 		file_hooks: false,
 		retry_after: None,
+		processing: false,
 	};
 	let full_k_positions = [Pos::NewOrder, Pos::Chall(1), Pos::Finalize];
 	for pos in post_positions() {
@@ -175,6 +190,27 @@ pub fn cases(tier: Tier) -> Vec<FaultCase> {
 			out.push(c);
 		}
 	}
+	// errors that come without a nonce (non-conforming server): the transmission bound must hold all the same
+	for pos in [Pos::NewOrder, Pos::Chall(0), Pos::Finalize, Pos::Cert] {
+		for t in ["badNonce", "serverInternal", "rateLimited"] {
+			for k in [3usize, 9, 12, 30] {
+				out.push(mk(&pos, Action::AcmeNoNonce(t.to_string()), k));
+			}
+		}
+	}
+	// challenges handed out as already `processing`: an error on the challenge POST still fails the attempt
+	for a in [Action::Acme("unauthorized".into()), Action::Acme("incorrectResponse".into()), Action::NonJson(500), Action::Empty(403), Action::Acme("serverInternal".into())] {
+		for i in 0..2 {
+			let k = if matches!(a, Action::Acme(ref t) if t == "serverInternal") { 12 } else { 1 };
+			let mut c = mk(&Pos::Chall(i), a.clone(), k);
+			c.processing = true;
+			out.push(c);
+		}
+	}
+	let mut okp = mk(&Pos::Nonce, Action::Empty(503), 0);
+	okp.faults.clear();
+	okp.processing = true;
+	out.push(okp);
 	let mut ok = mk(&Pos::Nonce, Action::Empty(503), 0);
 	ok.faults.clear();
 	ok.retry_after = Some("0".into());
